@@ -440,6 +440,78 @@ Definition endpoint_dials (r : route) : list N :=
   | _ => []
   end.
 
+(** ** Histories: the lookup's answers change between connections
+
+    "the endpoint registered, AT DIAL TIME, under the name the configured
+    lookup returns": the configured Lookup is not a constant function (a site
+    moves to another endpoint, a name gets suspended or reinstated) and the
+    registry changes (endpoints connect, disconnect, re-register).  What the
+    server keeps in its [lookup] field decides whether a dial sees the
+    current answer. *)
+
+(** what NewServer stores in s.lookup *)
+Inductive lookup_store :=
+| LDirect                      (* config.Lookup itself *)
+| LMemo                        (* a wrapper that remembers successful answers per domain *)
+| LStoreUnknown (s : string).
+
+Inductive hevent :=
+| EvLookup (f : bytes -> lookup_res)     (* from now on the configured Lookup answers f *)
+| EvRegistry (g : bytes -> option N)     (* from now on these endpoints are connected *)
+| EvDial (sni : bytes).                     (* a front connection with this server name *)
+
+Fixpoint memo_get (d : bytes) (m : list (bytes * dest)) : option dest :=
+  match m with
+  | [] => None
+  | (k, x) :: r => if beqb d k then Some x else memo_get d r
+  end.
+
+(** the function Server.dial calls as s.lookup *)
+Definition stored_lookup (store : lookup_store) (lk : bytes -> lookup_res) (memo : list (bytes * dest))
+  : bytes -> lookup_res :=
+  match store with
+  | LDirect => lk
+  | _ => fun d => match memo_get d memo with Some x => mkLk (Some x) false | None => lk d end
+  end.
+
+(** The routes of the dials of a history, in order. *)
+Fixpoint run_hist (store : lookup_store) (rj : list rj_step) (steps : list dial_step)
+         (has_lk has_home : bool) (lk : bytes -> lookup_res) (reg : bytes -> option N)
+         (memo : list (bytes * dest)) (evs : list hevent) : list route :=
+  match evs with
+  | [] => []
+  | EvLookup f :: r => run_hist store rj steps has_lk has_home f reg memo r
+  | EvRegistry g :: r => run_hist store rj steps has_lk has_home lk g memo r
+  | EvDial sni :: r =>
+      match store with
+      | LStoreUnknown _ => RStuck :: run_hist store rj steps has_lk has_home lk reg memo r
+      | _ =>
+          let eff := stored_lookup store lk memo in
+          let memo' := match store, eff sni with
+                       | LMemo, mkLk (Some x) false => (sni, x) :: memo
+                       | _, _ => memo
+                       end in
+          run_host rj steps (mkCfg has_lk eff has_home reg) sni
+            :: run_hist store rj steps has_lk has_home lk reg memo' r
+      end
+  end.
+
+(** The specification: every dial is decided by what the configured lookup
+    answers and what the registry holds at that dial. *)
+Fixpoint spec_hist (sufs : list string) (has_lk has_home : bool) (lk : bytes -> lookup_res)
+         (reg : bytes -> option N) (evs : list hevent) : list route :=
+  match evs with
+  | [] => []
+  | EvLookup f :: r => spec_hist sufs has_lk has_home f reg r
+  | EvRegistry g :: r => spec_hist sufs has_lk has_home lk g r
+  | EvDial sni :: r =>
+      decide sufs (mkCfg has_lk lk has_home reg) sni :: spec_hist sufs has_lk has_home lk reg r
+  end.
+
+(** how often the emitted Server.dial calls the lookup *)
+Definition lookup_steps (steps : list dial_step) : nat :=
+  List.length (filter (fun s => match s with DLookup => true | _ => false end) steps).
+
 End Route.
 
 (** * Remote address of the accepted connection (side_conn.go newSideConn,
